@@ -246,6 +246,9 @@ func (w *World) verifyFunc(fn *ssa.Function, c *FuncContract) (res *FuncResult) 
 		}
 	}
 	for _, rc := range c.Reach {
+		if rc.Optional {
+			continue
+		}
 		if rc.Clause.Label != "bound" && strings.HasPrefix(rc.Stmt, "call:") && !w.writingBaseline {
 			// a callee-keyed gate speaks about every call of that name: with no
 			// such call left it holds trivially (typos are caught when the
